@@ -257,7 +257,11 @@ def _limit_pos(
   sensorid = sensor_limitpos_adr[limitposid]
   if efc_id_in[worldid, efcid] == sensor_objid[sensorid]:
     efc_type = efc_type_in[worldid, efcid]
-    if efc_type == ConstraintType.LIMIT_JOINT or efc_type == ConstraintType.LIMIT_TENDON:
+    # joint and tendon ids overlap: the row kind must be the sensor's kind
+    stype = sensor_type[sensorid]
+    if (efc_type == ConstraintType.LIMIT_JOINT and stype == SensorType.JOINTLIMITPOS) or (
+      efc_type == ConstraintType.LIMIT_TENDON and stype == SensorType.TENDONLIMITPOS
+    ):
       val = efc_pos_in[worldid, efcid] - efc_margin_in[worldid, efcid]
       _write_scalar(sensor_type, sensor_datatype, sensor_adr, sensor_cutoff, sensorid, val, sensordata_out[worldid])
 
@@ -1056,7 +1060,11 @@ def _limit_vel(
   sensorid = sensor_limitvel_adr[limitvelid]
   if efc_id_in[worldid, efcid] == sensor_objid[sensorid]:
     efc_type = efc_type_in[worldid, efcid]
-    if efc_type == ConstraintType.LIMIT_JOINT or efc_type == ConstraintType.LIMIT_TENDON:
+    # joint and tendon ids overlap: the row kind must be the sensor's kind
+    stype = sensor_type[sensorid]
+    if (efc_type == ConstraintType.LIMIT_JOINT and stype == SensorType.JOINTLIMITVEL) or (
+      efc_type == ConstraintType.LIMIT_TENDON and stype == SensorType.TENDONLIMITVEL
+    ):
       _write_scalar(
         sensor_type, sensor_datatype, sensor_adr, sensor_cutoff, sensorid, efc_vel_in[worldid, efcid], sensordata_out[worldid]
       )
@@ -1668,7 +1676,11 @@ def _limit_frc(
   sensorid = sensor_limitfrc_adr[limitfrcid]
   if efc_id_in[worldid, efcid] == sensor_objid[sensorid]:
     efc_type = efc_type_in[worldid, efcid]
-    if efc_type == ConstraintType.LIMIT_JOINT or efc_type == ConstraintType.LIMIT_TENDON:
+    # joint and tendon ids overlap: the row kind must be the sensor's kind
+    stype = sensor_type[sensorid]
+    if (efc_type == ConstraintType.LIMIT_JOINT and stype == SensorType.JOINTLIMITFRC) or (
+      efc_type == ConstraintType.LIMIT_TENDON and stype == SensorType.TENDONLIMITFRC
+    ):
       _write_scalar(
         sensor_type, sensor_datatype, sensor_adr, sensor_cutoff, sensorid, efc_force_in[worldid, efcid], sensordata_out[worldid]
       )
@@ -2138,6 +2150,23 @@ def _sensor_touch(
       wp.atomic_add(sensordata_out[worldid], adr, normalforce)
 
 
+@wp.kernel
+def _sensor_touch_cutoff(
+  # Model:
+  sensor_adr: wp.array[int],
+  sensor_cutoff: wp.array[float],
+  sensor_touch_adr: wp.array[int],
+  # Data out:
+  sensordata_out: wp.array2d[float],
+):
+  worldid, touchid = wp.tid()
+  sensorid = sensor_touch_adr[touchid]
+  cutoff = sensor_cutoff[sensorid]
+  if cutoff > 0.0:
+    adr = sensor_adr[sensorid]
+    sensordata_out[worldid, adr] = wp.min(sensordata_out[worldid, adr], cutoff)
+
+
 @wp.func
 def _transform_spatial(vec: wp.spatial_vector, dif: wp.vec3) -> wp.vec3:
   return wp.spatial_bottom(vec) - wp.cross(dif, wp.spatial_top(vec))
@@ -2540,6 +2569,13 @@ def sensor_acc(m: Model, d: Data):
     outputs=[
       d.sensordata,
     ],
+  )
+  # touch forces are accumulated over contacts: apply the cutoff to the total
+  wp.launch(
+    _sensor_touch_cutoff,
+    dim=(d.nworld, m.sensor_touch_adr.size),
+    inputs=[m.sensor_adr, m.sensor_cutoff, m.sensor_touch_adr],
+    outputs=[d.sensordata],
   )
 
   weld_geom_count = wp.zeros((d.nworld, m.nbody), dtype=int)
